@@ -162,6 +162,10 @@ func manifold2(m *model2d.Mesh) bool {
 
 func chain2(c *hlib.Ctx) {
 	g := pickGen2(c)
+	if !manifold2(g.m) {
+		c.Stat("gen2-rejected:"+g.label, 1)
+		return
+	}
 	c.Stat("gen2:"+strings.SplitN(g.label, "(", 2)[0], 1)
 	runChain2(c, g, 1+c.Rng.Intn(6), nil)
 }
